@@ -67,7 +67,8 @@ def parseFile (j : Json) : File :=
     else (getArr j "elems").filterMap (fun e => match asArr e with
       | [k, ns] => some (parseKind (asStr k), (asArr ns).map parseNode)
       | _ => none)
-  ⟨getBool j "parses", tops, elems, parseTable nodes (getArr j "typed"), parseTable nodes (getArr j "raw"), getBool j "conflict", getBool j "emptyPI"⟩
+  ⟨getBool j "parses", tops, elems, parseTable nodes (getArr j "typed"), parseTable nodes (getArr j "raw"), getBool j "conflict", getBool j "emptyPI",
+    if isNull j "selfRef" then none else some (parseRef (getD j "selfRef" Json.null))⟩
 
 def parseInput (j : Json) : Input :=
   { allowed := getBool j "allowed"
@@ -83,7 +84,7 @@ def branchName (n : Nat) : String :=
   | 6 => "doc.cached" | 7 => "drill.typed" | 8 => "reread.ok" | 9 => "drill.kindmismatch" | 10 => "pathitem.fragment"
   | 11 => "backtrack.fired" | 12 => "read.miss" | 13 => "parse.fail" | 14 => "fragment.bad" | 16 => "value.nil"
   | 17 => "drill.fail.nopath" | 18 => "reread.fail" | 19 => "pathitem.chain.nil" | 20 => "pathitem.chain"
-  | 21 => "backtrack.otherkind" | 22 => "parameter.schema+content" | 23 => "pathitem.emptyfile" | _ => s!"b{n}"
+  | 24 => "pathitem.file.isref" | 25 => "pathitem.file.isref.nil" | 22 => "parameter.schema+content" | 23 => "pathitem.emptyfile" | _ => s!"b{n}"
 
 def fuel : Nat := 4000
 
